@@ -159,3 +159,330 @@ def run_impl(inp):
         out = w.step(ev)
         steps.append({"t": w.loop.now_us(), "out": out})
     return {"steps": steps, "final": w.final()}
+
+
+# ---------------------------------------------------------------------------------------------- model side
+def g_bytes(hexs): return fw.gbytes(bytes.fromhex(hexs))
+
+def g_event(ev):
+    k = ev[0]
+    if k == "recv":
+        _, r, t, code, mid, tok, path, nr, pay = ev
+        return ("Recv {| i_remote := %d; i_type := %s; i_code := %d; i_mid := %d; i_token := %s; i_path := %s; i_nr := %s; i_payload := %s |}"
+                % (r, t, code, mid, g_bytes(tok), PATH_CTOR[path], gopt(nr, gz), g_bytes(pay)))
+    if k == "fire": return "Fire"
+    if k == "adv": return "Advance %s" % gz(ev[1])
+    if k == "respond":
+        _, sid, code, pay, nr, rel = ev
+        return ("Respond %d {| a_code := %d; a_payload := %s; a_nr := %s; a_rel := %s |}"
+                % (sid, code, g_bytes(pay), gopt(nr, gz), gopt(rel, gbool)))
+    if k == "raise": return "RaiseIn %d %s" % (ev[1], "ENotFound" if ev[2] == "NotFound" else "ERuntime")
+    raise ValueError(ev)
+
+def decode_observe(p, inp):
+    p = fw.plain(p)
+    outs, scan, (recent, now, mid), (timers, piggy, exchanges, backlogs, incoming) = p
+    entries = []
+    for o in outs:
+        if o[0] == 0: entries.append(["send", o[1], "p%d" % o[2], bytes(o[3:]).hex()])
+        elif o[0] == 1: entries.append(["start", o[1], o[2], "p%d" % o[3], o[4], bytes(o[5:]).hex()])
+        else: entries.append(["exn", ["AssertionError", "KeyError"][o[2]]])
+    steps, prev = [], 0
+    for (t, n) in scan:
+        steps.append({"t": t, "out": entries[prev:n]}); prev = n
+    rec = sorted(["p%d" % e[0], e[1], bytes(e[2:]).hex() if len(e) > 2 else None] for e in recent)
+    return {"steps": steps,
+            "final": {"recent": rec, "now": now, "message_id": mid, "timers": sorted(timers),
+                      "piggy": sorted(["p%d" % r, bytes(tok).hex(), m] for (r, tok, m) in piggy),
+                      "exchanges": sorted(["p%d" % r, m] for (r, m) in exchanges),
+                      "backlogs": sorted(["p%d" % r, n] for (r, n) in backlogs),
+                      "incoming": sorted(["p%d" % r, bytes(tok).hex()] for (r, tok) in incoming)}}
+
+
+# ---------------------------------------------------------------------------------------------- generators
+NR_VALUES = [None, None, None, 0, 2, 8, 16, 26, 127]
+ADV_TABLE = [1, 50000, 99999, 100000, 100001, 500000, 1999999, 2000000, 2000001, 2500000, 5000000, 30000000, 100000000,
+             LIFETIME - 100001, LIFETIME - 1, LIFETIME, LIFETIME + 1]
+RESP_CODES = [69, 69, 69, 68, 65, 132, 128, 160]
+
+class Gen:
+    """builds one event script; keeps the clock it can predict (only while no 'fire' was used)"""
+    def __init__(self, rng, mid0=None, uniform=None):
+        self.rng = rng
+        self.mid0 = rng.choice([0, 1, 7, 65535, rng.randrange(65536)]) if mid0 is None else mid0
+        self.uniform = rng.choice([2000000, 2500000, 3000000]) if uniform is None else uniform
+        self.ev = []; self.now = 0; self.nreq = 0; self.tokc = 0; self.slow = []
+    def inp(self): return {"mid0": self.mid0, "uniform": self.uniform, "events": self.ev}
+    def token(self):
+        self.tokc += 1
+        return self.rng.choice([bytes([self.tokc % 256]), bytes([self.tokc % 256, 0xA0]), b"", bytes([1, 2, 3, 4, 5, 6, 7, self.tokc % 256])]).hex()
+    def payload(self): return self.rng.choice(["", "", "61", "0102ff"])
+    def recv(self, r, t, mid, tok, path, nr=None, pay="", code=None):
+        code = self.rng.choice([1, 1, 2, 3, 4, 5]) if code is None else code
+        e = ["recv", r, t, code, mid & 0xFFFF, tok, path, nr, pay]; self.ev.append(e); self.nreq += 1; return e
+    def again(self, e): self.ev.append(list(e))
+    def adv(self, us): self.ev.append(["adv", us]); self.now += us
+    def fire(self): self.ev.append(["fire"])
+    def respond(self, sid, code=None, pay=None, nr="pick", rel="pick"):
+        rng = self.rng
+        self.ev.append(["respond", sid, rng.choice(RESP_CODES) if code is None else code,
+                        rng.choice(["", "aa", "0001"]) if pay is None else pay,
+                        rng.choice([None, None, None, 2, 26]) if nr == "pick" else nr,
+                        rng.choice([None, None, True, False]) if rel == "pick" else rel])
+    def raise_(self, sid): self.ev.append(["raise", sid, self.rng.choice(["NotFound", "RuntimeError"])])
+    def peer_ack(self, r, mid, t=None): self.ev.append(["recv", r, t or self.rng.choice(["ACK", "ACK", "RST"]), 0, mid & 0xFFFF, "", "fast", None, ""])
+
+
+def gen_scenario(rng):
+    """one request through its whole life, copies of it injected at every stage, other peers reusing the mid;
+    the endpoint's own mid counter aligned with the peer's mids (pattern of the repaired defect F2)"""
+    mid = rng.choice([0, 1, 7, 65534, 65535, rng.randrange(65536)])
+    g = Gen(rng, mid0=(mid + rng.choice([0, 0, 0, -1, -2, 1, rng.randrange(65536)])) & 0xFFFF)
+    npeers = rng.choice([1, 2, 2, 3])
+    kind = rng.choice(["fast", "slow", "slow", "slow", "fail", "missing", "suppress", "badreq", "rel", "unrel"])
+    t = rng.choice(["CON", "CON", "CON", "NON"])
+    nr = rng.choice(NR_VALUES)
+    first = g.recv(0, t, mid, g.token(), kind, nr, g.payload())
+    sids = 1; myslow = [0] if kind == "slow" else []
+    def dups(p=0.7):
+        while rng.random() < p:
+            g.again(first); p *= 0.5
+    def others():
+        nonlocal sids
+        # other peers (and the same peer with other mids) — some reuse the same mid, some are slow
+        for _ in range(rng.choice([0, 1, 1, 2])):
+            r = rng.randrange(npeers); m = rng.choice([mid, mid, mid + 1, mid - 1, rng.randrange(65536)])
+            if r == 0 and (m & 0xFFFF) == mid: m = mid + 1
+            k2 = rng.choice(["fast", "fast", "slow", "unrel", "rel", "fail", "suppress"])
+            e = g.recv(r, rng.choice(["CON", "CON", "NON"]), m, g.token(), k2, rng.choice(NR_VALUES), g.payload())
+            if k2 == "slow": myslow.append(sids)
+            sids += 1
+            if rng.random() < 0.4: g.again(e)
+    dups(); others(); dups(0.3)
+    if rng.random() < 0.5: g.adv(rng.choice([1, 50000, 99999])); dups()
+    g.adv(rng.choice([100000, 100001, 100000 - (g.now % 100000) if g.now % 100000 else 100000])); dups()
+    others()
+    # handlers answer (or fail) in random order, copies in between
+    rng.shuffle(myslow)
+    for sid in list(myslow):
+        if rng.random() < 0.15: continue
+        if rng.random() < 0.2: g.raise_(sid)
+        else: g.respond(sid)
+        dups(0.85)
+        if rng.random() < 0.5:
+            # the peer acknowledges (or resets) a separate CON response — our mids start at mid0
+            g.peer_ack(rng.randrange(npeers), g.mid0 + rng.randrange(0, 3)); dups(0.4)
+    if rng.random() < 0.6: g.adv(rng.choice([1000000, 2000000, 2500000, 7000000, 50000000, 100000000])); dups(0.6); others()
+    # the lifetime boundary of the first arrival
+    if rng.random() < 0.7:
+        delta = rng.choice([-1, -1, 0, 0, 1, 1, 2, -100000])
+        rest = LIFETIME + delta - g.now
+        if rest > 0:
+            if rng.random() < 0.4 and rest > 2: a = rng.randrange(1, rest); g.adv(a); g.adv(rest - a)
+            else: g.adv(rest)
+            dups(0.9)
+            if rng.random() < 0.5: g.adv(rng.choice([1, 1, 2, 100000])); dups(0.9)
+    return g.inp()
+
+
+def gen_random(rng, adversarial=False):
+    g = Gen(rng)
+    mids = [rng.randrange(65536) for _ in range(2)] + [g.mid0, (g.mid0 + 1) & 0xFFFF]
+    toks = ["", "01", "02", "a1b2", "0102030405060708"]
+    recvs = []
+    for _ in range(rng.randint(4, 28)):
+        x = rng.random()
+        if x < 0.45 or not recvs:
+            t = rng.choice(["CON", "CON", "CON", "NON"]); code = None
+            if adversarial and rng.random() < 0.35:
+                t = rng.choice(TYPES); code = rng.choice([0, 0, 1, 2, 7, 69, 68, 132, 160, 191, 32, 192, 224])
+            path = rng.choice(PATHS)
+            if adversarial and recvs and rng.random() < 0.25:
+                # the peer reuses a live message ID for a ping / an unmatched CON response / an ACK-typed request
+                old = rng.choice(recvs)
+                g.recv(old[1], rng.choice(["CON", "CON", "CON", "ACK", "NON"]), old[4], rng.choice(toks), path, None, "", rng.choice([0, 0, 69, 132, 1]))
+                continue
+            e = g.recv(rng.randrange(3), t, rng.choice(mids), rng.choice(toks) if (adversarial or rng.random() < 0.3) else g.token(),
+                       path, rng.choice(NR_VALUES), g.payload(), code)
+            recvs.append(e)
+        elif x < 0.65: g.again(rng.choice(recvs))
+        elif x < 0.80: g.adv(rng.choice(ADV_TABLE))
+        elif x < 0.86: g.fire()
+        elif x < 0.96:
+            if rng.random() < 0.2: g.raise_(rng.randrange(0, g.nreq + 1))
+            else: g.respond(rng.randrange(0, g.nreq + 1))
+        else: g.peer_ack(rng.randrange(3), g.mid0 + rng.randrange(0, 4))
+    return g.inp()
+
+
+def gen_lifetime(rng):
+    """several keys inserted at the same instant (their expiry timers tie on the due time), copies at L-1, L, L+1"""
+    g = Gen(rng)
+    if rng.random() < 0.5: g.adv(rng.choice([1, 12345, 100000, 3000000]))
+    firsts = []
+    base = rng.randrange(65536)
+    for i in range(rng.randint(1, 4)):
+        firsts.append(g.recv(rng.randrange(2), rng.choice(["CON", "CON", "NON"]), base + (i // 2), g.token(),
+                             rng.choice(["fast", "fast", "suppress", "fail", "unrel", "slow"]), None, g.payload()))
+        if firsts[-1] in firsts[:-1]: firsts.pop()
+    t0 = g.now
+    mode = rng.choice(["adv", "adv", "fire", "split"])
+    delta = rng.choice([-1, 0, 1])
+    if mode == "fire":
+        # fire timers one by one: the clock jumps to each due time; copies in between
+        for _ in range(rng.randint(1, 8)):
+            g.fire()
+            if rng.random() < 0.6: g.again(rng.choice(firsts))
+    else:
+        target = t0 + LIFETIME + delta
+        if mode == "split":
+            a = rng.choice([100000, 2000000, LIFETIME - 2, LIFETIME - 100000]); g.adv(a)
+            for f in firsts:
+                if rng.random() < 0.5: g.again(f)
+        g.adv(target - g.now)
+    for f in firsts:
+        g.again(f)
+        if rng.random() < 0.5: g.again(f)
+    if rng.random() < 0.5:
+        g.adv(rng.choice([1, 2])); 
+        for f in firsts: g.again(f)
+    return g.inp()
+
+
+# ---------------------------------------------------------------------------------------------- the property
+class C04(fw.Property):
+    id = "C04"
+    coq_props = "Props/C04.v"
+    gen_jobs = []
+    model_imports = ["Verif.Model.C04"]
+    quick_budget = 420
+    thorough_budget = 6000
+    search_factor = 2
+    design_ref = "DESIGN.md section 9"
+    technique = ("Coq invariant proofs over an executable state machine of the message-ID deduplication of MessageManager and of the "
+                 "request path that produces the remembered acknowledgements; differential correspondence of that machine with the real "
+                 "Context/TokenManager/MessageManager/resource.Site under a virtual-time loop; independent wire-level oracle")
+    level_text = ("Theorems (closed under the global context) over Model/C04.v for every reachable state and every event list: a request key "
+                  "(remote, mid) is handed to the application at most once per EXCHANGE_LIFETIME; a further copy inside the lifetime yields exactly "
+                  "the last ACK/RST sent under that key since the first arrival (CON) or nothing (NON, or no ACK yet), changes no state and never "
+                  "raises; the key is forgotten exactly when its expiry timer fires at first arrival + EXCHANGE_LIFETIME and the next copy is executed; "
+                  "other remotes' use of the same mid is independent. The model is tied to the code by running both on the same event scripts.")
+    level_note = ("Hand-written model (no translated kernel): trusted through the correspondence streams only. Not modelled: multicast, shutdown, "
+                  "outgoing client requests, observe, block-wise, non-default TransportTuning of incoming messages, continuation after an internal "
+                  "exception (KeyError/AssertionError branches are modelled as outputs and are unreachable in every run). A peer that reuses a live "
+                  "message ID for a ping or an unmatched CON response makes the remembered reply an RST; the theorems state this case explicitly.")
+    rule = ("streams: scenario = one request (fast/slow/failing/missing/No-Response/forced CON or NON response; CON or NON) followed through its life with "
+            "copies injected before completion, inside EMPTY_ACK_DELAY, after the empty ACK, after the separate response, after the peer's ACK/RST, and at "
+            "EXCHANGE_LIFETIME-1/0/+1 us, 1-3 peers reusing the mid, own mid counter aligned with the peer's mids; lifetime = keys inserted at one instant, "
+            "expiry by advance / split advance / single timer firings, copies at the boundary; random = event soup over small pools of mids, tokens, peers; "
+            "adversarial = the same with pings, responses, ACK/RST-typed requests, reserved codes and token reuse colliding with live mids. "
+            "Non-trivial = at least one copy of a CON request was re-answered and at least one request reached the site; distinct by full script.")
+    trusted_base = ["hand-written Model/C04.v (validated by the four correspondence streams on every run: full output log with timestamps, "
+                    "per-event cut, final _recent_messages / timers / piggy-back / exchange / backlog / incoming tables)",
+                    "harness: virtual-time loop simloop.VLoop (ideal timer service), fake transport simnet.FakeMI/Addr, scripted random",
+                    "the plugin's own 20-line CoAP header/option encoder used to build the injected datagrams and to render the model's output"]
+    assumptions = ["timers fire at their due time in (due, creation) order (ideal loop); real-loop jitter is not modelled",
+                   "default TransportTuning (EXCHANGE_LIFETIME 247 s, EMPTY_ACK_DELAY 0.1 s, MAX_RETRANSMIT 4) on incoming messages"]
+
+    def setup(self):
+        import logging, warnings
+        logging.disable(logging.CRITICAL); warnings.simplefilter("ignore")
+        from aiocoap.numbers.constants import TransportTuning
+        tt = TransportTuning()
+        assert round(tt.EXCHANGE_LIFETIME * 1e6) == LIFETIME and round(tt.EMPTY_ACK_DELAY * 1e6) == EMPTY_ACK and tt.MAX_RETRANSMIT == 4, \
+            "transport constants differ from Model/C04.v"
+
+    def gen_cases(self, tier, rng, n):
+        for k in range(n):
+            x = k % 10
+            if x < 5: yield "scenario", gen_scenario(rng)
+            elif x < 7: yield "lifetime", gen_lifetime(rng)
+            elif x < 9: yield "random", gen_random(rng)
+            else: yield "adversarial", gen_random(rng, adversarial=True)
+
+    def impl(self, stream, inp):
+        return run_impl(inp)
+
+    def model(self, stream, inp):
+        return "observe (init %s %s) %s" % (gz(inp["mid0"]), gz(inp["uniform"]), glist([g_event(e) for e in inp["events"]]))
+
+    def decode(self, stream, inp, parsed):
+        return decode_observe(parsed, inp)
+
+    # ------------------------------------------------------------------ oracle: RFC 7252 4.5 on the wire and the handler log
+    def oracle(self, stream, inp, res):
+        if "harness_exception" in res:
+            return ("C04:crash:" + res["where"], "driver raised %s: %s" % (res["harness_exception"], res.get("text")))
+        live = {}     # (remote, mid) -> {"t0": first arrival, "reply": hex of the last ACK/RST sent under the key since then}
+        last_start = {}
+        well_behaved = stream in ("scenario", "lifetime")
+        for n, (ev, st) in enumerate(zip(inp["events"], res["steps"])):
+            out = st["out"]; t = st["t"]
+            for o in out:
+                if o[0] == "exn": return ("C04:exception:" + o[1], "event %d %r raised %s" % (n, ev, o[1]))
+            expect_dup = None
+            if ev[0] == "recv" and 1 <= ev[3] < 32:
+                key = ("p%d" % ev[1], ev[4]); g = live.get(key)
+                starts = [o for o in out if o[0] == "start" and (o[3], o[4]) == key]
+                unsure = False
+                if g is not None and t < g["t0"] + LIFETIME: expect_dup = True
+                elif g is not None and t <= g.get("alt", g["t0"]) + LIFETIME:
+                    # the expiry instant itself (either side of the timer), or a key whose first arrival may have been an
+                    # ACK/RST-typed request at such an instant: a hand-over to the application settles it, otherwise it is a copy
+                    expect_dup = (not starts)
+                    if ev[2] not in ("CON", "NON") or "alt" in g: unsure = True
+                else: expect_dup = False
+                if expect_dup and unsure:
+                    g["alt"] = max(t, g.get("alt", 0)) if ev[2] not in ("CON", "NON") else g.get("alt", g["t0"])
+                    if any(o[0] == "start" for o in out):
+                        return ("C04:dup-executed", "event %d: %r started a handler" % (n, ev))
+                elif expect_dup:
+                    if starts or any(o[0] == "start" for o in out):
+                        return ("C04:dup-executed", "event %d: copy of %s mid %d arriving %d us after the first was passed to the application again" % (n, key[0], key[1], t - g["t0"]))
+                    if ev[2] == "CON":
+                        want = [] if g["reply"] is None else [["send", t, key[0], g["reply"]]]
+                        if out != want:
+                            if g["reply"] is None: return ("C04:dup-answered-without-ack", "event %d: copy of CON mid %d answered with %r although no ACK was sent yet" % (n, key[1], out))
+                            if not out: return ("C04:dup-unanswered", "event %d: copy of CON mid %d got no answer, the ACK %s was sent before" % (n, key[1], g["reply"]))
+                            if len(out) == 1 and out[0][0] == "send" and out[0][2] == key[0]:
+                                return ("C04:dup-answer-differs", "event %d: copy of CON mid %d answered with %s, the acknowledgement sent before was %s" % (n, key[1], out[0][3], g["reply"]))
+                            return ("C04:dup-extra-output", "event %d: copy of CON mid %d produced %r, expected %r" % (n, key[1], out, want))
+                        if well_behaved and g["reply"] is not None and parse_header(bytes.fromhex(g["reply"]))[0] != "ACK":
+                            return ("C04:dup-answer-not-ack", "event %d: remembered reply %s is not an ACK" % (n, g["reply"]))
+                    elif out:
+                        return ("C04:dup-non-output", "event %d: copy of %s mid %d produced output %r" % (n, ev[2], key[1], out))
+                else:
+                    live[key] = {"t0": t, "reply": None}
+                    if ev[2] in ("CON", "NON"):
+                        if len(starts) != 1:
+                            return ("C04:fresh-not-executed" if not starts else "C04:handler-twice",
+                                    "event %d: request %s mid %d (new for this endpoint%s) was passed to the application %d times" %
+                                    (n, key[0], key[1], "" if g is None else ", previous arrival %d us ago" % (t - g["t0"]), len(starts)))
+            # bookkeeping on everything that went out / was started in this step
+            for o in out:
+                if o[0] == "start":
+                    k2 = (o[3], o[4]); prev = last_start.get(k2)
+                    if prev is not None and o[1] - prev < LIFETIME:
+                        return ("C04:handler-twice", "request %s mid %d passed to the application at %d and again at %d us" % (k2[0], k2[1], prev, o[1]))
+                    last_start[k2] = o[1]
+                    if not (ev[0] == "recv" and ("p%d" % ev[1], ev[4]) == k2):
+                        return ("C04:start-without-arrival", "event %d %r started a handler for %r" % (n, ev, k2))
+                elif o[0] == "send":
+                    ty, code, mid, tok = parse_header(bytes.fromhex(o[3]))
+                    g2 = live.get((o[2], mid))
+                    if ty in ("ACK", "RST") and g2 is not None and o[1] <= g2["t0"] + LIFETIME:
+                        g2["reply"] = o[3]
+        return None
+
+    def nontrivial(self, stream, inp, res):
+        if "steps" not in res: return None
+        seen = set(); reanswered = False; started = False
+        for ev, st in zip(inp["events"], res["steps"]):
+            if any(o[0] == "start" for o in st["out"]): started = True
+            if ev[0] == "recv" and 1 <= ev[3] < 32:
+                k = (ev[1], ev[4])
+                if k in seen and ev[2] == "CON" and st["out"] and all(o[0] == "send" for o in st["out"]): reanswered = True
+                seen.add(k)
+        return fw.jdump(inp) if (reanswered and started) else None
+
+PROPERTY = C04()
